@@ -1,7 +1,7 @@
-/* Positive fixture for C17 (R17.1-R17.3). Parsed by yrx only. */
+/* Positive fixture for C17 (R17.1-R17.3, R17.8: hdr fields never consulted). Parsed by yrx only. */
 typedef unsigned long size_t; typedef unsigned int uint32_t; typedef unsigned char uint8_t;
 #define NULL ((void*) 0)
-typedef struct { uint8_t magic[4]; uint8_t version; uint8_t num_buffers; } HDR;
+typedef struct _YR_HDR { uint8_t magic[4]; uint8_t version; uint8_t num_buffers; } YR_HDR;
 typedef struct { uint32_t buffer_id; uint32_t offset; } YR_ARENA_REF;
 typedef struct { uint8_t* data; size_t size; size_t used; } YR_ARENA_BUFFER;
 typedef struct { uint32_t num_buffers; YR_ARENA_BUFFER buffers[16]; } YR_ARENA;
@@ -11,7 +11,7 @@ void* yr_arena_ref_to_ptr(YR_ARENA* a, YR_ARENA_REF* r);
 
 int yr_arena_load_stream(void* stream, YR_ARENA* arena)
 {
-  HDR hdr;
+  YR_HDR hdr;
   yr_stream_read(&hdr, sizeof(hdr), 1, stream);            /* R17.1: count not checked */
   YR_ARENA_REF reloc_ref;
   while (yr_stream_read(&reloc_ref, sizeof(reloc_ref), 1, stream) == 1)   /* R17.3 */
